@@ -124,6 +124,8 @@ def entries():
     L.append(ent("any.3", "a: int, k: int, " + W, ANY, "w", pre=["not isinstance(w, (str, bytes)) or len(w) <= 2"]))
     L.append(ent("any.dup", "a: int, " + W, '("any", [%s, %s, ("none",)])' % (INT_A, INT_A), "w",
                  pre=["not isinstance(w, (str, bytes)) or len(w) <= 2"]))
+    L.append(ent("any.pinned", "x: int, b: bool, " + W, '("any", [("int", x, Nil, Nil), ("bool", b), ("none",)])', "w",
+                 pre=["not isinstance(w, (str, bytes)) or len(w) <= 2"]))
     L.append(ent("any.empty", W, '("any", None)', "w", pre=["not isinstance(w, (str, bytes)) or len(w) <= 2"], covers=("accept",)))
     L.append(ent("any.nested", "a: int, b: int, v: int", '("any", [%s, ("any", [%s, ("none",)])])' % (INT_A, INT_B), "v", covers=("accept",)))
     L.append(ent("any.in.list", "a: int, b: int, n: int, v0: int, v1: int",
